@@ -286,6 +286,11 @@ def family(t, tier):
                     yield ("float2", sp, opts0)
         # (4b) present frames that are NaN in some component other than the deciding first one
         yield from partial_frames(t)
+        # (4c) the item list handed over at once through the list property, as list / tuple / generator
+        if t in (R.T_DATA3D, R.T_FORCE3D):
+            for via in ("setter-list", "setter-tuple", "setter-gen"):
+                for masks in ([], [(True, False, True)], [(True, True, True), (False, True, True), (True, False, False)]):
+                    yield ("via", rle_block(t, 3, masks), {"via": via})
         # (5) labels
         if t != R.T_PLATDATA:
             for lab in LABELS:
@@ -349,6 +354,9 @@ def family(t, tier):
                 yield ("floatx", platcal([(3, mk_platinfo("q", 1)), (0, it)]), opts0)
         for mem in MEM_LAYOUTS:
             yield ("mem", platcal([(3, mk_platinfo("p", 2)), (0, mk_platinfo("q", 4))]), {"mem": mem})
+        for via in ("setter-list", "setter-tuple", "setter-gen"):
+            for k in (0, 1, 3):
+                yield ("via", platcal([(c, mk_platinfo(f"P{i}", i)) for i, c in enumerate([7, 0, 3][:k])]), {"via": via})
     elif t == R.T_DATA2D:
         for mem in MEM_LAYOUTS:
             yield ("mem", data2d(2, 2, cells_grid(2, 2, (3, 0, 1, 3))), {"mem": mem})
